@@ -701,7 +701,12 @@ theorem seq_step (ih : DeRel ext cfg S fuel) (item : Node) (depth : Nat) (ignore
       (deSeqLoop ext cfg S (fuel + 1) item depth ignored eh maxItems bs acc') := by
   unfold deSeqLoop
   split
-  · exact RelD.pure hacc.reverse
+  · apply RelD.bind (hasMore_rel _ _ _)
+    rintro ⟨m1, bs1⟩ _ rfl
+    dsimp only
+    split
+    · exact RelD.fail
+    · exact RelD.pure hacc.reverse
   · apply RelD.bind (hasMore_rel _ _ _)
     rintro ⟨m1, bs1⟩ _ rfl
     dsimp only
